@@ -6,6 +6,7 @@ import Driver.Ops.OidTime
 import Driver.Ops.Fixer
 import Driver.Ops.CRange
 import Driver.Ops.Unber
+import Driver.Ops.StackGuard
 open Driver
 
 def handlers : List Handler := [
@@ -14,7 +15,8 @@ def handlers : List Handler := [
   Driver.Ops.OidTime.run,
   Driver.Ops.Fixer.run,
   Driver.Ops.CRange.run,
-  Driver.Ops.Unber.run
+  Driver.Ops.Unber.run,
+  Driver.Ops.StackGuard.run
 ]
 
 def step (line : String) : String :=
